@@ -360,11 +360,15 @@ def summarize(pid, tier, seed, results, wall):
                 if kf:
                     lines.append("KNOWN-FINDING: property=%s %s" % (pid, kf["what"]))
                     continue
-                path = write_replay(pid, r["name"], {"property": pid, "check": r["name"], "kind": r["kind"],
+                path = write_replay(pid, v.get("obligation") or r["name"], {"property": pid, "check": r["name"], "kind": r["kind"],
                                                      "obligation": v.get("obligation", r["name"]),
                                                      "inputs": v.get("inputs"), "observed": v.get("observed"),
                                                      "required": v.get("required"), "replay_call": v.get("replay_call")})
-                lines.append("VIOLATION property=%s replay=%s" % (pid, path))
+                if v.get("undecided"):
+                    lines.append("UNDECIDED property=%s obligation=%s %s" % (pid, v.get("obligation"), v.get("observed")))
+                    bump(2)
+                    continue
+                lines.append("VIOLATION property=%s replay=%s%s" % (pid, path, "" if v.get("inputs") else " no-failing-input-found"))
                 violations += 1
                 bump(1)
             for kf in r.get("known_reproduced", []):
